@@ -13,7 +13,7 @@
      P:allow      Allow header of a 405 / automatic OPTIONS differs from the implemented set
      D:badmethod  unknown method on a routed path did not answer 400 (documented detail)
      D:allow      an Allow header where the decision has none (or vice versa) outside 405 / OPTIONS
-     D:addroute   add_route accepted / rejected differently from the suffix rule
+     D:addroute   add_route refused a call the suffix rule accepts
      H:conflict   the harness generated two different fields at one template position
      H:sink       the harness generated a sink prefix outside the pattern language (WellFormedSink) *)
 EXTENDS Dispatch, Json, IOUtils
@@ -46,8 +46,10 @@ JudgeReq ==
              THEN (IF o.kind \in {"NotAllowed", "AutoOptions"} THEN "P:allow" ELSE "D:allow")
         ELSE "ok"
 
+(* accepted although the suffix selects no responder: no verdict here - the tables follow the specification (no such
+   route), so whatever the wrongly accepted route answers later is judged as P:status / P:who / P:allow *)
 JudgeRoute ==
-    IF Ev.ok = SuffixSelectsNothing(Kind, Ev.sfx) THEN "D:addroute"
+    IF ~Ev.ok /\ ~SuffixSelectsNothing(Kind, Ev.sfx) THEN "D:addroute"
     ELSE IF Ev.ok /\ ~ConflictFree(RoutesWith(Ev.tmpl, Ev.id, Kind, Ev.sfx)) THEN "H:conflict"
     ELSE "ok"
 
@@ -55,7 +57,8 @@ JudgeSink == IF WellFormedSink(Ev.pat) THEN "ok" ELSE "H:sink"
 
 (* what an event does to the dispatch tables (assembly events as logged; requests change nothing) *)
 Apply ==
-    /\ routes'  = (IF Ev.op = "route" /\ Ev.ok THEN RoutesWith(Ev.tmpl, Ev.id, Kind, Ev.sfx) ELSE routes)
+    /\ routes'  = (IF Ev.op = "route" /\ Ev.ok /\ ~SuffixSelectsNothing(Kind, Ev.sfx)
+                   THEN RoutesWith(Ev.tmpl, Ev.id, Kind, Ev.sfx) ELSE routes)
     /\ sinks'   = (IF Ev.op = "sink" THEN Put(sinks, [id |-> Ev.id, pat |-> Ev.pat]) ELSE sinks)
     /\ statics' = (IF Ev.op = "static" THEN Put(statics, [id |-> Ev.id, prefix |-> Ev.prefix, fb |-> Ev.fb]) ELSE statics)
     /\ n' = (IF Ev.op \in {"route", "sink", "static"} THEN Ev.id ELSE n)
